@@ -45,6 +45,7 @@ type Workload struct {
 	Template string      `json:"template"`
 	Files    []*FileSpec `json:"files"`
 	MaxDepth int         `json:"max_depth"`
+	RootArg  string      `json:"root_arg,omitempty"` // how the root module is spelled when handed to Parse ("" = its plain path)
 	Faults   []Fault     `json:"faults,omitempty"`
 	Buggify  []string    `json:"buggify,omitempty"`
 	RemoteV  string      `json:"remote_version,omitempty"`
@@ -263,6 +264,29 @@ func Gen(seed uint64, faulty bool) *Workload {
 
 	for _, fs := range w.Files {
 		fs.Text = render(w, fs)
+	}
+	// the module argument itself may be spelled rooted or with a dot segment
+	switch r.Intn(8) {
+	case 0:
+		w.RootArg = "/" + w.Files[0].Path
+	case 1:
+		w.RootArg = "./" + w.Files[0].Path
+	}
+	// two files whose names differ only in letter case are two files
+	if n >= 3 && r.Chance(0.1) {
+		a, b := w.Files[n-1], w.Files[n-2]
+		if a.Kind == "sysl" && b.Kind == "sysl" && !a.Remote && !b.Remote {
+			a.Path, b.Path = "d1/Types.sysl", "d1/types.sysl"
+			for _, f := range w.Files {
+				for k, im := range f.Imports {
+					t := w.Files[im.To]
+					if (im.To == a.ID || im.To == b.ID || f == a || f == b) && !t.Remote && im.Ver == "" {
+						f.Imports[k] = ImportSpec{To: im.To, Spell: "/" + t.Path, As: im.As}
+					}
+				}
+				f.Text = render(w, f)
+			}
+		}
 	}
 
 	if r.Chance(0.5) {
